@@ -63,8 +63,9 @@ Val(i) == ParseISO(StrSeq[i], -1)
 
 VARIABLES i, j, k, zone
 (* pairs: the whole grid; triples (transitivity): every 5th string, which    *)
-(* still has every type, offset and boundary instant                         *)
-Core == {n \in 1..Len(StrSeq) : n % 5 = 1 \/ StrSeq[n] \in SpecialStrings}
+(* still has every type, offset and boundary instant; MC_DTPairs checks every *)
+(* triple of the special values                                              *)
+Core == {n \in 1..Len(StrSeq) : n % 5 = 1}      \* (every triple of the special values: MC_DTPairs)
 Init == i \in 1..Len(StrSeq) /\ j = 0 /\ k = 0 /\ zone \in CtxZones
 Step == \/ j = 0 /\ j' \in 1..Len(StrSeq) /\ UNCHANGED <<i, k, zone>>
         \/ j # 0 /\ k = 0 /\ i \in Core /\ j \in Core /\ k' \in Core /\ UNCHANGED <<i, j, zone>>
